@@ -206,6 +206,8 @@ type pathRun struct {
 	trace    []dec
 	kinds    []string
 	pcN      int
+	pcKey    uint64
+	pcKey2   uint64
 	nondets  []NondetRec
 	choices  []string
 	steps    int
@@ -296,8 +298,55 @@ func traceString(tr []dec, kinds []string) string {
 	return sb.String()
 }
 
+// query cache: identical (path condition, query) pairs recur across
+// sibling paths; terms are hash-consed with deterministic variable
+// names, so the pair is identified by term ids.
+var (
+	qcMu    sync.Mutex
+	qcache  = map[[2]uint64]Result{}
+	QCHits  int
+	QCMiss  int
+)
+
+func mix(h uint64, x uint64) uint64 {
+	h ^= x + 0x9e3779b97f4a7c15 + (h << 6) + (h >> 2)
+	h *= 0xff51afd7ed558ccd
+	h ^= h >> 33
+	return h
+}
+
+// checkWith is solver.CheckWith through the cache.
+func (p *pathRun) checkWith(c *Term) Result {
+	if c.IsConst {
+		if c.CBits == 0 {
+			return Unsat
+		}
+	}
+	key := [2]uint64{p.pcKey, mix(p.pcKey2, uint64(c.ID))}
+	qcMu.Lock()
+	r, ok := qcache[key]
+	if ok {
+		QCHits++
+	} else {
+		QCMiss++
+	}
+	qcMu.Unlock()
+	if ok {
+		return r
+	}
+	r = p.solver.CheckWith(c)
+	if r != Unknown {
+		qcMu.Lock()
+		qcache[key] = r
+		qcMu.Unlock()
+	}
+	return r
+}
+
 func (p *pathRun) assertPC(t *Term) {
 	p.solver.Assert(t)
+	p.pcKey = mix(p.pcKey, uint64(t.ID))
+	p.pcKey2 = mix(p.pcKey2, uint64(t.ID)*2654435761+1)
 	p.pcN++
 	if len(p.pcSample) < 12 {
 		p.pcSample = append(p.pcSample, t.Full(4))
@@ -329,7 +378,7 @@ func (p *pathRun) decide(c *Term, kind string) bool {
 		return false
 	}
 	p.pos++
-	rt := p.solver.CheckWith(c)
+	rt := p.checkWith(c)
 	if rt == Unsat {
 		p.trace = append(p.trace, dec{C: 0})
 		p.kinds = append(p.kinds, kind)
@@ -337,7 +386,7 @@ func (p *pathRun) decide(c *Term, kind string) bool {
 		p.assertPC(tNot(c))
 		return false
 	}
-	rf := p.solver.CheckWith(tNot(c))
+	rf := p.checkWith(tNot(c))
 	if rt == Unknown || rf == Unknown {
 		p.incon++
 	}
@@ -452,7 +501,7 @@ func (p *pathRun) assume(c *Term, why string) {
 	}
 	if p.pos >= len(p.prefix) {
 		// beyond the replayed prefix the path condition may become unsat
-		if p.solver.CheckWith(c) == Unsat {
+		if p.checkWith(c) == Unsat {
 			panic(pathEnd{"vacuous", why})
 		}
 	}
@@ -469,6 +518,13 @@ func (p *pathRun) checkAssert(label string, c *Term) {
 		return
 	}
 	var r Result
+	if !c.IsConst {
+		if p.checkWith(tNot(c)) == Unsat {
+			p.disch++
+			p.assertPC(c)
+			return
+		}
+	}
 	if c.IsConst {
 		r = p.solver.Check() // pc itself must be sat to make this a witness
 	} else {
